@@ -68,3 +68,39 @@ func verifH_C13_object_defaults() {
 	verifAssert(err2 == nil && calls2 == 0 && reflect.DeepEqual(v, after), "C13 object defaults: a second validation changes nothing further")
 	verifReach("end")
 }
+
+//verif:harness id=C13 tier=quick,thorough witness=end bounds="defaults after a `not`: anyOf / oneOf whose first candidate is refused by its own not-clause (the value matches the not-schema) or by a plain type clause, and whose second candidate matches and gives f the default F (symbolic), plus a sibling property g of the enclosing object with the default G that is visited after the composition; value {k: number} without f and g: after one validation f and g hold their defaults, the callback ran once, a second validation changes nothing"
+func verifH_C13_defaults_after_not() {
+	f, g := verifFiniteFloat("F"), verifFiniteFloat("G")
+	num := func(def any) *SchemaRef { return &SchemaRef{Value: &Schema{Type: &Types{"number"}, Default: def}} }
+	hasK := &Schema{Type: &Types{"object"}, Required: []string{"k"}}
+	var first *Schema
+	if verifChoose("refusedBy", 2) == 0 {
+		first = &Schema{Type: &Types{"object"}, Not: &SchemaRef{Value: hasK}, Properties: Schemas{"f": num(1.0)}}
+	} else {
+		first = &Schema{Type: &Types{"object"}, Properties: Schemas{"k": {Value: &Schema{Type: &Types{"string"}}}, "f": num(1.0)}}
+	}
+	second := &Schema{Type: &Types{"object"}, Properties: Schemas{"k": {Value: &Schema{Type: &Types{"number"}}}, "f": num(f)}}
+	inner := &Schema{}
+	if verifChoose("comp", 2) == 0 {
+		inner.AnyOf = SchemaRefs{{Value: first}, {Value: second}}
+	} else {
+		inner.OneOf = SchemaRefs{{Value: first}, {Value: second}}
+	}
+	// the composition sits in property "a"; "z" sorts after it and has a default of its own
+	s := &Schema{Type: &Types{"object"}, Properties: Schemas{"a": {Value: inner}, "z": {Value: &Schema{Type: &Types{"object"}, Properties: Schemas{"g": num(g)}}}}}
+	v := map[string]any{"a": map[string]any{"k": verifFiniteFloat("k")}, "z": map[string]any{}}
+	want := verifCopyJSON(v).(map[string]any)
+	want["a"].(map[string]any)["f"] = f
+	want["z"].(map[string]any)["g"] = g
+	calls := 0
+	err := s.VisitJSON(v, VisitAsRequest(), DefaultsSet(func() { calls++ }))
+	verifAssert(err == nil, "C13 defaults after not: the value validates (the second candidate matches)")
+	verifAssert(reflect.DeepEqual(v, want), "C13 defaults after not: the matching candidate's default and the later sibling's default are applied, nothing else")
+	verifAssert(calls == 1, "C13 defaults after not: the defaults-set callback runs once")
+	after := verifCopyJSON(v)
+	calls2 := 0
+	err2 := s.VisitJSON(v, VisitAsRequest(), DefaultsSet(func() { calls2++ }))
+	verifAssert(err2 == nil && calls2 == 0 && reflect.DeepEqual(v, after), "C13 defaults after not: a second validation changes nothing further")
+	verifReach("end")
+}
